@@ -61,4 +61,15 @@ def probes(ctx):
     it = p.insts[0]
     it.top = [Op('INIT'), Op('LEX', a=100)]
     it.acts = [(1, Op('MORE')), (1, Op('LESS', a=1))]
-    return sb.probe(PROP, ctx, 'array-more-then-less', sc, p, 'more')
+    out = sb.probe(PROP, ctx, 'array-more-then-less', sc, p, 'more')
+    # yyinput() called again after it reported the end of an in-memory buffer
+    sc = scenario.Scenario()
+    sc.rules = [scenario.Rule(pat=rx.cls(rx.ALL), conds=[])]
+    sc.flavor = 'nr'
+    p = Plan()
+    p.allow = 4
+    it = p.insts[0]
+    it.top = [Op('INIT'), Op('SCAN_BYTES', d=b'ab'), Op('LEX', a=100)]
+    it.acts = [(1, Op('INPUT')), (1, Op('INPUT'))]
+    out += sb.probe(PROP, ctx, 'input-again-at-eof', sc, p, 'fatal')
+    return out
